@@ -47,6 +47,22 @@
 //     asserted is only the receiver when the option wins or when the path is
 //     empty or "/" (otlptracegrpc / otlpmetricgrpc join a longer path into
 //     the dial target, otlploggrpc drops it: recorded, not asserted).
+//   - Transport supplied by the caller (a third of the cases, crossed with
+//     every cell): the gRPC exporters get WithGRPCConn(conn), conn dialled by
+//     the harness to one of the collectors. The option documents that it
+//     "takes precedence over any other option that relates to establishing or
+//     persisting a gRPC connection" and WithEndpoint, WithEndpointURL,
+//     WithInsecure, WithTLSCredentials, WithCompressor, WithReconnectionPeriod,
+//     WithServiceConfig, WithDialOption "have no effect if WithGRPCConn is
+//     used" (WithCompressor of otlptracegrpc does not say so but its only
+//     effect is a dial option). Hence endpoint, security and compression are
+//     the connection's: the request must arrive at the connection's collector
+//     whatever the endpoint / compression sources say, the encoding is not
+//     asserted. Headers (per-request metadata) and timeout (per-request
+//     deadline) still follow option > signal variable > generic variable >
+//     default and are read from what the collector received. The HTTP
+//     exporters have no WithHTTPClient; WithProxy(func returning no proxy)
+//     makes them clone their transport and leaves every setting in force.
 //   - HTTP timeout: the collector answers after 80 ms when the winning
 //     timeout is long (5..30 s or the default 10 s) => the export must
 //     succeed; when the winning timeout is 10..30 ms the collector would
@@ -73,6 +89,8 @@ import (
 	"github.com/go-logr/logr"
 	"go.opentelemetry.io/otel"
 	"go.opentelemetry.io/otel/verif/internal/vk"
+	grpcdial "google.golang.org/grpc"
+	"google.golang.org/grpc/credentials/insecure"
 	"pgregory.net/rapid"
 )
 
@@ -120,6 +138,14 @@ type Case struct {
 	// always use WithEndpoint(FixColl).
 	FixVia  int `json:"fix_via"`
 	FixColl int `json:"fix_coll"`
+	// UserConn: the transport is supplied by the caller. gRPC exporters get
+	// WithGRPCConn(conn) with a connection the harness dialled to collector
+	// ConnColl (the connection then owns endpoint, security and compression;
+	// headers and timeout keep following the precedence model). HTTP exporters
+	// get WithProxy(direct), which makes them clone their transport; every
+	// setting still applies.
+	UserConn bool `json:"user_conn"`
+	ConnColl int  `json:"conn_coll"`
 }
 
 func (c Case) srcs() [3]Src { return [3]Src{c.Opt, c.Sig, c.Gen} }
@@ -356,6 +382,9 @@ func genOTLP(t *rapid.T) Case {
 		srcs[i] = s
 	}
 	c.Opt, c.Sig, c.Gen = srcs[0], srcs[1], srcs[2]
+	// drawn last so that the rest of the case does not depend on it
+	c.UserConn = uniform(t, 3, "user_conn") == 0
+	c.ConnColl = rapid.IntRange(0, 2).Draw(t, "conn_coll")
 	return c
 }
 
@@ -600,6 +629,30 @@ func expect(c Case) expectation {
 		e.delivered = !e.toShort
 		if e.toShort {
 			e.recv = -2 // the client may give up before the request is read
+		}
+	}
+	if c.UserConn && grpc {
+		// WithGRPCConn: "sets conn as the gRPC ClientConn used for all
+		// communication ... takes precedence over any other option that relates
+		// to establishing or persisting a gRPC connection"; WithEndpoint,
+		// WithEndpointURL, WithInsecure, WithCompressor, ... "have no effect if
+		// WithGRPCConn is used". The request therefore arrives where the
+		// connection points, whatever the endpoint / compression sources say
+		// (valid or not); the encoding is the connection's business and is not
+		// asserted. Headers and timeout are per-request and keep their oracle.
+		switch c.Setting {
+		case "endpoint", "path":
+			e.recv, e.delivered, e.path = c.ConnColl, true, ""
+		case "compression":
+			e.recv, e.delivered, e.encAssert = c.ConnColl, true, false
+		case "headers":
+			if w != -1 {
+				e.recv = c.ConnColl
+			}
+		case "timeout":
+			if e.toAssert {
+				e.recv = c.ConnColl
+			}
 		}
 	}
 	return e
@@ -851,9 +904,28 @@ func runOTLP(c Case) (vs []vk.Violation, info vk.Info) {
 		}
 	}
 
+	if c.UserConn {
+		kind := map[bool]string{true: "WithGRPCConn", false: "WithProxy(direct)"}[grpc]
+		info.Class("user_transport/" + kind + "/" + c.Exporter)
+		info.Class("user_transport/" + kind + "/set/" + c.Setting)
+		info.Class("user_transport/" + kind + "/" + c.Setting + "/winner/" + map[int]string{-1: "unknown", 0: "opt", 1: "sig", 2: "gen", 3: "default"}[e.v.winner])
+	}
+
 	env := &envSetter{}
 	defer env.restore()
 	o := apply(c, env)
+	if c.UserConn {
+		if grpc {
+			conn, err := grpcdial.NewClient(colls.grpcAddr[c.ConnColl], grpcdial.WithTransportCredentials(insecure.NewCredentials()))
+			if err != nil {
+				panic("harness: cannot create the client connection: " + err.Error())
+			}
+			defer conn.Close()
+			o.grpcConn = conn
+		} else {
+			o.proxy = true
+		}
+	}
 
 	// collector behaviour for this case
 	delay := time.Duration(0)
@@ -957,7 +1029,11 @@ func runOTLP(c Case) (vs []vk.Violation, info vk.Info) {
 	}
 
 	// ---- observations where nothing is asserted ----
-	if e.v.winner == -1 {
+	connOwns := c.UserConn && grpc && (c.Setting == "endpoint" || c.Setting == "path" || c.Setting == "compression")
+	if connOwns && c.Setting == "compression" && len(reqs) > 0 {
+		info.Class(fmt.Sprintf("obs/compression/WithGRPCConn(connection without compressor)/%s/winner_%s=%q", c.Exporter, map[int]string{-1: "unknown", 0: "opt", 1: "sig", 2: "gen", 3: "default"}[e.v.winner], reqs[0].Encoding))
+	}
+	if e.v.winner == -1 && !connOwns {
 		// the source the walk stopped at
 		first := -1
 		for i, s := range srcs {
@@ -970,7 +1046,7 @@ func runOTLP(c Case) (vs []vk.Violation, info vk.Info) {
 			info.Class(fmt.Sprintf("obs/%s/%s:%s/%s=%s", c.Setting, map[bool]string{true: "opt", false: "env"}[first == 0], c.badOf(first).kind, c.Exporter, observe(c, e, reqs, buildErr, exportErr)))
 		}
 	}
-	if c.Setting == "path" && grpc && e.recv == -2 && e.v.winner >= 1 {
+	if c.Setting == "path" && grpc && !c.UserConn && e.recv == -2 && e.v.winner >= 1 {
 		info.Class(fmt.Sprintf("obs/path/grpc_env_endpoint_with_path/%s=%s", c.Exporter, map[bool]string{true: "delivered", false: "not_delivered"}[len(reqs) > 0]))
 	}
 	if c.Setting == "endpoint" && !grpc && e.v.winner == 0 && srcs[0].Form == 2 && len(reqs) > 0 {
@@ -1122,7 +1198,7 @@ func TestOTLPPrecedence(t *testing.T) {
 		Property: "C20", Check: "otlp_precedence",
 		Rule: "one cell of 6 exporters x 5 settings x {absent,valid,invalid}^3 (option, signal env, generic env), cell index uniform, concrete values drawn (collectors A/B/C, paths, header values, gzip/none, timeouts); " +
 			"non-trivial = at least two of the three sources provide the setting (valid or invalid); distinct = distinct case encodings",
-		Quick: 3240, Thorough: 40500,
+		Quick: 4860, Thorough: 60750,
 		Gen: genOTLP, Run: runOTLP,
 		Known:       knownOTLP(),
 		CaseTimeout: 3 * time.Minute,
